@@ -24,9 +24,11 @@ CLAUSES = {   # minimum evaluations per run (a quick run reaches three to seven 
 }
 RULE = ("seeded class-based cases: 2-5 parents (inbred for two/three/four-way; arbitrary phased, fully heterozygous, "
         "inbred, duplicated and phase-swapped genotypes for dihybrid), 1-7 loci for full enumeration (8-14 loci with the "
-        "pairwise-marginal enumeration, up to 40 loci for the chunking clause) on 1-3 chromosomes with spread, clustered, "
+        "pairwise-marginal enumeration, up to 40 loci for the chunking clause; a 'large' family with 130-400 markers on one "
+        "chromosome in 2-5 completely linked position groups, enumerated exactly on the groups, mem in {None,1024,50,127,128}, "
+        "complementary parents differing at more than 127 markers) on 1-3 chromosomes with spread, clustered, "
         "coincident, far and negative-offset genetic positions, 1-3 traits with gaussian / small-integer / sparse / "
-        "cancelling / mixed-magnitude effects, nself in {0..4, inf}, mem in {None,1,2,3,5,L,1024}, every class of "
+        "cancelling / mixed-magnitude effects, models with empty and with 1-3 rows of non-marker effects (u_misc), nself in {0..4, inf}, mem in {None,1,2,3,5,L,1024}, every class of "
         "pybrops.model.vmat and pybrops.model.pcvmat through from_algmod, from_gmod and the factories, all parent index "
         "tuples (sampled per equality pattern when 4^L states make a tuple expensive).  A case is non-trivial when the "
         "parents are not all identical and some effect is non-zero; distinct = digest of genotypes, effects, layout, "
@@ -216,7 +218,15 @@ def gen_effects(g, L):
     return u, beta, cls
 
 
-def make_inputs(h0, h1, chrgrp, genpos, u, beta, g, labelled=True):
+def gen_umisc(g, nt):
+    """Miscellaneous (non-marker) random effects of the model: absent, or 1-3 rows of large values.  They are not part
+    of the additive marker effects, so no quantity of this property may depend on them."""
+    if g.random() < 0.6:
+        return None
+    return g.normal(size=(int(g.integers(1, 4)), nt)) * 5.0 + 3.0
+
+
+def make_inputs(h0, h1, chrgrp, genpos, u, beta, g, labelled=True, u_misc=None):
     from pybrops.popgen.gmat.DensePhasedGenotypeMatrix import DensePhasedGenotypeMatrix
     from pybrops.model.gmod.DenseAdditiveLinearGenomicModel import DenseAdditiveLinearGenomicModel
     n, L = h0.shape
@@ -228,7 +238,7 @@ def make_inputs(h0, h1, chrgrp, genpos, u, beta, g, labelled=True):
         vrnt_name=numpy.array(["m%02d" % i for i in range(L)], dtype=object), vrnt_genpos=genpos.copy())
     pg.group_vrnt()
     trait = numpy.array(["trait%d" % i for i in range(u.shape[1])], dtype=object)
-    mod = DenseAdditiveLinearGenomicModel(beta=beta.copy(), u_misc=None, u_a=u.copy(), trait=trait)
+    mod = DenseAdditiveLinearGenomicModel(beta=beta.copy(), u_misc=None if u_misc is None else u_misc.copy(), u_a=u.copy(), trait=trait)
     return pg, mod
 
 
@@ -379,17 +389,19 @@ def case_mat(ctx, c):
     route = routes[int(g.integers(len(routes)))]
     nmating, nprogeny = int(g.integers(1, 20)), int(g.integers(1, 80))
     labelled = g.random() < 0.85
+    u_misc = gen_umisc(g, u.shape[1])
     coords = [c, "mat"]
     site = site_of(scheme, kind)
     trivial = bool((h0 == h0[0]).all() and (h1 == h0[0]).all()) or not u.any()
     ctx.case("mat:%s/%s/%s/%s%s" % (scheme, kind, pcls, posmode, "/pairwise" if big else ""),
-             h0, h1, u, beta, chrgrp, genpos, scheme, kind, route, nself_name(nself), mem, trivial=trivial)
+             h0, h1, u, beta, chrgrp, genpos, scheme, kind, route, nself_name(nself), mem, u_misc is not None, trivial=trivial)
     summary = {"family": "mat", "scheme": scheme, "class": lib_class(scheme, kind).__name__, "route": route, "nself": nself_name(nself),
                "mem": mem, "phase0": h0.tolist(), "phase1": h1.tolist(), "chrgrp": chrgrp.tolist(), "genpos": genpos.tolist(),
-               "u_a": u.tolist(), "beta": beta.tolist()}
+               "u_a": u.tolist(), "beta": beta.tolist(), "u_misc": None if u_misc is None else u_misc.tolist()}
     if c % 37 == 0:
         ctx.sample(summary)
-    pg, mod = make_inputs(h0, h1, chrgrp, genpos, u, beta, g, labelled)
+    ctx.sumnote("cases with non-empty u_misc" if u_misc is not None else "cases with empty u_misc")
+    pg, mod = make_inputs(h0, h1, chrgrp, genpos, u, beta, g, labelled, u_misc)
     H = HaldaneMapFunction()
     obj, exc = build(ctx, scheme, kind, route, mod, pg, nmating, nprogeny, nself, H, mem)
     if route != "from_algmod":
@@ -552,7 +564,10 @@ def case_chunk(ctx, c):
                "phase0": h0.tolist(), "phase1": h1.tolist(), "chrgrp": chrgrp.tolist(), "genpos": genpos.tolist(), "u_a": u.tolist()}
     if c % 53 == 0:
         ctx.sample(summary)
-    pg, mod = make_inputs(h0, h1, chrgrp, genpos, u, beta, g)
+    u_misc = gen_umisc(g, u.shape[1])
+    summary["u_misc"] = None if u_misc is None else u_misc.tolist()
+    ctx.sumnote("cases with non-empty u_misc" if u_misc is not None else "cases with empty u_misc")
+    pg, mod = make_inputs(h0, h1, chrgrp, genpos, u, beta, g, True, u_misc)
     H = HaldaneMapFunction()
     ref, rexc = build(ctx, scheme, kind, "from_algmod", mod, pg, 1, 10, nself, H, None)
     if rexc is not None:
@@ -611,7 +626,9 @@ def case_uc(ctx, c):
     via_xmap = bool(g.random() < 0.5)
     coords = [c, "uc"]
     site = "UsefulnessCriterionSelectionProblemMixin._calc_uc"
-    pg, mod = make_inputs(h0, h1, chrgrp, genpos, u, beta, g)
+    u_misc = gen_umisc(g, u.shape[1])
+    ctx.sumnote("cases with non-empty u_misc" if u_misc is not None else "cases with empty u_misc")
+    pg, mod = make_inputs(h0, h1, chrgrp, genpos, u, beta, g, True, u_misc)
     H = HaldaneMapFunction()
     if via_xmap:
         nx = int(g.integers(1, 13))
@@ -626,7 +643,7 @@ def case_uc(ctx, c):
              trivial=not u.any())
     summary = {"family": "uc", "scheme": scheme, "problem": P.__name__, "nself": nself, "upper_percentile": pctl, "unique_parents": unique,
                "xmap": xmap.tolist() if via_xmap else "generated", "phase0": h0.tolist(), "phase1": h1.tolist(), "chrgrp": chrgrp.tolist(),
-               "genpos": genpos.tolist(), "u_a": u.tolist(), "beta": beta.tolist()}
+               "genpos": genpos.tolist(), "u_a": u.tolist(), "beta": beta.tolist(), "u_misc": None if u_misc is None else u_misc.tolist()}
     if c % 41 == 0:
         ctx.sample(summary)
     if nx == 0:
@@ -693,7 +710,118 @@ def case_uc(ctx, c):
                   witness=dict(summary, index=list(idx), row=row, reported=uc[row], expected=exp, intensity=inten), coords=coords)
 
 
-FAMILIES = {"mat": (case_mat, 3840, 16 * 4000), "chunk": (case_chunk, 640, 16 * 1000), "uc": (case_uc, 480, 16 * 640)}
+# ---------------------------------------------------------------- family 4: many markers per chromosome
+def case_large(ctx, c):
+    """130-400 markers on one chromosome in 2-5 groups of markers sharing one genetic position (completely linked), two
+    segment types A/B per group, every parental haplotype carries A or B in each group.  The gamete distribution is then
+    exactly the one of 2-5 biallelic super-loci with effect (B - A).u per group, which the engine enumerates; the first two
+    parents are complementary, so they differ at more than 127 markers inside one chunk for mem in {None, 1024, 128, ...}."""
+    from pybrops.popgen.gmap.HaldaneMapFunction import HaldaneMapFunction
+    g = ctx.rng("large", c)
+    scheme = ["twoway", "threeway", "fourway", "dihybrid"][int(g.integers(0, 4))]
+    kind = "vmat.genetic"
+    if scheme in ("twoway", "threeway") and g.random() < 0.6:
+        kind = "pcvmat.genetic"
+    G = int(g.integers(2, 6))
+    nm = int(g.integers(130, 401))
+    n = int(g.integers(2, 4))
+    sizes = 1 + g.multinomial(nm - G, g.dirichlet(numpy.ones(G)))
+    grp = numpy.repeat(numpy.arange(G), sizes)
+    posmode = ["spread", "clustered", "far", "offset"][int(g.integers(0, 4))]
+    _, gpos = gen_layout_one(g, G, posmode)
+    genpos = gpos[grp]
+    chrgrp = numpy.ones(nm, dtype="int64")
+    A = g.integers(0, 2, nm)
+    pdiff = [1.0, 1.0, 0.9, 0.6][int(g.integers(0, 4))]
+    B = numpy.where(g.random(nm) < pdiff, 1 - A, A)
+    # segment types per parent and phase
+    if scheme == "dihybrid":
+        x0 = g.integers(0, 2, (n, G)); x1 = g.integers(0, 2, (n, G))
+        x0[0] = 0; x1[0] = 1                      # parent 0: fully heterozygous A/B
+        x0[1] = 1; x1[1] = int(g.integers(0, 2))  # parent 1: B / (A or B)
+    else:
+        x0 = g.integers(0, 2, (n, G)); x0[0] = 0; x0[1] = 1
+        x1 = x0.copy()
+    h0 = numpy.where(x0[:, grp] == 1, B[None, :], A[None, :]).astype("int8")
+    h1 = numpy.where(x1[:, grp] == 1, B[None, :], A[None, :]).astype("int8")
+    u, beta, ucls = gen_effects(g, nm)
+    u_misc = gen_umisc(g, u.shape[1])
+    nself = gen_nself(g, G, ctx.tier)
+    mems = [None, 1024, 50, 127, 128]
+    ndiff = int((h0[0] != h0[1]).sum())
+    coords = [c, "large"]
+    site = site_of(scheme, kind)
+    ctx.case("large:%s/%s/%s" % (scheme, kind, posmode), h0, h1, u, genpos, nself_name(nself), u_misc is not None)
+    summary = {"family": "large", "scheme": scheme, "class": lib_class(scheme, kind).__name__, "nself": nself_name(nself), "markers": nm,
+               "group_sizes": sizes.tolist(), "group_genpos": gpos.tolist(), "segment_A": A.tolist(), "segment_B": B.tolist(),
+               "types_phase0": x0.tolist(), "types_phase1": x1.tolist(), "markers_differing_parent0_parent1": ndiff,
+               "u_a": u.tolist(), "beta": beta.tolist(), "u_misc": None if u_misc is None else u_misc.tolist()}
+    if c % 5 == 0:
+        ctx.sample({k: v for k, v in summary.items() if k not in ("segment_A", "segment_B", "u_a")})
+    ctx.sumnote("large cases: parents 0 and 1 differ at more than 127 markers" if ndiff > 127 else "large cases: parents 0 and 1 differ at <= 127 markers")
+    pg, mod = make_inputs(h0, h1, chrgrp, genpos, u, beta, g, True, u_misc)
+    H = HaldaneMapFunction()
+    # exact reference on the super-loci
+    u_eff = numpy.zeros((G, u.shape[1]))
+    numpy.add.at(u_eff, grp, (B - A)[:, None] * u)
+    E = O.Engine(O.interval_r(numpy.ones(G, dtype=int), gpos))
+    hap = [(x0[i], x1[i]) for i in range(n)]
+    homoz = [bool((x0[i] == x1[i]).all()) for i in range(n)]
+    tuples = pick_tuples(g, scheme, n, min(81, tuple_budget(G, nself, ctx.tier)), homoz)
+    expect = {}
+    for idx in tuples:
+        if tclass(scheme, idx, homoz) != "female == male, heterozygous parent":
+            expect[idx] = expected_entry(kind, O.exact_moments(E, scheme, hap, idx, nself, u_eff)[1])
+    tol = entry_tol(kind, var_scale(u))
+    mats = {}
+    for mem in mems:
+        obj, exc = build(ctx, scheme, kind, "from_algmod", mod, pg, 1, 10, nself, H, mem)
+        if exc is not None:
+            ctx.raised(site + " via from_algmod", exc)
+            mats[mem] = exc
+            continue
+        M = mats[mem] = numpy.asarray(obj.mat)
+        blk = "more than 127 segregating markers in a chunk" if (ndiff > 127 and (mem is None or mem > 127)) else "at most 127 segregating markers in a chunk"
+        for idx, exp in expect.items():
+            got = M[tuple(idx)]
+            ok = close(got, exp, tol)
+            ctx.sumnote("entries judged against the enumeration: " + type(obj).__name__)
+            ctx.maxnote("worst |reported - enumerated| / tolerance (passing entries, many markers)", slack(got, exp, tol) if ok else 0.0)
+            ctx.check("C12.genetic", ok, site, "entry == exact gamete enumeration", "%s / %s" % (tclass(scheme, idx, homoz), blk),
+                      what="%s%s nself=%s mem=%s, %d markers in %d position groups: reported %s, enumeration %s" % (
+                          type(obj).__name__, list(idx), nself_name(nself), mem, nm, G, numpy.asarray(got).ravel()[:4].tolist(), numpy.ravel(exp)[:4].tolist()),
+                      witness=dict(summary, index=list(idx), mem=mem, reported=numpy.asarray(got), enumerated=exp), coords=coords)
+    ref = mats[None]
+    for mem in mems[1:]:
+        A_ = mats[mem]
+        rem = "many markers per chromosome, " + ("chunk holds the whole chromosome" if mem >= nm else "several chunks")
+        if isinstance(A_, Exception) != isinstance(ref, Exception):
+            ctx.check("C12.chunk", False, site, "raises iff mem=None raises", rem, what="mem=%s: %r; mem=None: %r" % (mem, A_, ref),
+                      witness=dict(summary, mem=mem), coords=coords)
+            continue
+        if isinstance(A_, Exception):
+            continue
+        tolb = numpy.broadcast_to(tol, A_.shape[NTUP[scheme]:])
+        with numpy.errstate(all="ignore"):
+            ok = A_.shape == ref.shape and bool(((numpy.abs(A_ - ref) <= tolb) | (numpy.isnan(A_) & numpy.isnan(ref))).all())
+        ctx.check("C12.chunk", ok, site, "matrix independent of mem", rem, what="mem=%s differs from mem=None (%d markers)" % (mem, nm),
+                  witness=dict(summary, mem=mem), coords=coords)
+
+
+def gen_layout_one(g, L, posmode):
+    """Strictly increasing genetic positions of L loci on one chromosome."""
+    if posmode == "clustered":
+        gaps = numpy.where(g.random(L) < 0.6, 10.0 ** g.uniform(-7, -3, L), g.uniform(0.05, 1.0, L))
+    elif posmode == "far":
+        gaps = g.uniform(3.0, 20.0, L)
+    else:
+        gaps = g.uniform(0.01, 0.6, L)
+    start = float(g.uniform(-2, 2)) if posmode == "offset" else 0.0
+    return numpy.ones(L, dtype="int64"), start + numpy.cumsum(numpy.r_[0.0, gaps[1:]])
+
+
+FAMILIES = {"mat": (case_mat, 3840, 16 * 4000), "chunk": (case_chunk, 640, 16 * 1000), "uc": (case_uc, 480, 16 * 640),
+            "large": (case_large, 40, 16 * 40)}
 
 
 def run_shard(ctx):
